@@ -430,7 +430,7 @@ func runC03(w *World, c *Check) {
 				callers := staticCallers(w, fn)
 				good := len(callers) > 0
 				for _, cf := range callers {
-					if FuncKey(cf) != "spnego.newSession" {
+					if refKeyOf(cf) != "spnego.newSession" {
 						good = false
 					}
 				}
